@@ -156,28 +156,44 @@ def _sym_get(v, i, model):
 
 def run_task(task):
     """(func, scenario name, timeout_ms, prop) -> dict"""
-    func, scname, timeout_ms, prop = task
+    func, scname, timeout_ms, prop = task[:4]
+    shard, nshards = (task[4], task[5]) if len(task) > 4 else (0, 1)
     t0 = time.time()
-    out = {"func": func, "scenario": scname, "paths": [], "vcs": [], "error": None}
+    out = {"func": func, "scenario": scname, "paths": [], "vcs": [], "error": None, "shard": shard}
     try:
         from . import prove
         from .contract import verify_scenario
 
         w = load_world()
-        ct = w.contracts[func]
-        sc = [s for s in ct.scenarios if s.name == scname][0]
-        results = verify_scenario(w, ct, sc)
+        if func.startswith("lemma:"):
+            from .contract import verify_lemma
+
+            lem = [l for l in w.lemmas if l.name == func[6:]][0]
+            ct, sc = None, None
+            results = verify_lemma(w, lem)
+        else:
+            ct = w.contracts[func]
+            sc = [s for s in ct.scenarios if s.name == scname][0]
+            results = verify_scenario(w, ct, sc)
+        vc_index = 0
         for r in results:
-            out["paths"].append({"outcome": r.outcome, "detail": r.detail, "trace": [f"{t}={c}" for t, c in r.trace][:40]})
+            if shard == 0:
+                out["paths"].append({"outcome": r.outcome, "detail": r.detail, "trace": [f"{t}={c}" for t, c in r.trace][:40]})
             for vc in r.vcs:
-                props = vc.meta.get("props") or ct.serves
+                props = vc.meta.get("props") or (ct.serves if ct else [prop])
                 if prop not in props and vc.meta.get("kind") in ("ensures", "exc-ensures"):
+                    continue
+                vc_index += 1
+                if vc_index % nshards != shard:
                     continue
                 v = prove.discharge(vc, timeout_ms)
                 d = {"name": vc.name, "status": v.status, "backend": v.backend, "secs": round(v.secs, 4),
                      "kind": vc.meta.get("kind", ""), "text": vc.meta.get("text", ""), "smt_size": v.smt_size,
                      "reason": v.reason, "path": r.outcome, "trace": [f"{t}={c}" for t, c in r.trace][:40]}
-                if v.status == "refuted":
+                if v.status == "refuted" and ct is None:
+                    d["args"] = None
+                    d["model"] = {k: s for k, s in prove._model_dict(v.model).items() if "!" not in k}
+                elif v.status == "refuted":
                     # concretise the scenario arguments under the counter-model
                     try:
                         from .engine import Exec, Path
@@ -245,7 +261,12 @@ def check_property(prop, tier, seed):
     w = load_world()
     contracts = [ct for ct in w.contracts.values() if prop in ct.serves]
     timeout_ms = 10000 if tier == "quick" else 60000
-    tasks = [(ct.func, sc.name, timeout_ms, prop) for ct in contracts for sc in ct.scenarios]
+    tasks = []
+    for ct in contracts:
+        for sc in ct.scenarios:
+            n = getattr(ct, "shards", 1)
+            tasks.extend((ct.func, sc.name, timeout_ms, prop, i, n) for i in range(n))
+    tasks += [("lemma:" + l.name, "lemma", timeout_ms, prop) for l in w.lemmas if prop in l.serves]
     results = []
     if tasks:
         ctx = mp.get_context("fork")
@@ -262,9 +283,10 @@ def check_property(prop, tier, seed):
     reach = {}
     for res in results:
         key = res["func"]
-        f = functions.setdefault(key, {"function": key, "source_sha256_16": w.repo.source_hash(key), "scenarios": 0, "paths": 0,
+        f = functions.setdefault(key, {"function": key, "source_sha256_16": (w.repo.source_hash(key) if not key.startswith("lemma:") else "-"), "scenarios": 0, "paths": 0,
                                        "obligations": 0, "exits": {}})
-        f["scenarios"] += 1
+        if res.get("shard", 0) == 0:
+            f["scenarios"] += 1
         if res["error"]:
             internal.append(f"{key}[{res['scenario']}]: {res['error'][-800:]}")
             continue
@@ -276,10 +298,10 @@ def check_property(prop, tier, seed):
             f["exits"][p["outcome"]] = f["exits"].get(p["outcome"], 0) + 1
             if p["outcome"] == "unsupported":
                 undecided.append(f"{key}[{res['scenario']}]: unsupported: {p['detail']}")
-            if p["outcome"] == "return" or p["outcome"].startswith("raise:"):
+            if p["outcome"] in ("return", "lemma") or p["outcome"].startswith("raise:"):
                 live += 1
         reach[(key, res["scenario"])] = live
-        if live == 0 and not any(p["outcome"] == "unsupported" for p in res["paths"]):
+        if res.get("shard", 0) == 0 and live == 0 and not any(p["outcome"] == "unsupported" for p in res["paths"]):
             internal.append(f"{key}[{res['scenario']}]: no reachable exit (vacuous scenario: contradictory requires/invariants?)")
         for d in res["vcs"]:
             n_obl += 1
@@ -305,7 +327,7 @@ def check_property(prop, tier, seed):
     os.makedirs(os.path.join(VERIF, "replays", prop), exist_ok=True)
     seen = set()
     for res, d in violations:
-        ct = w.contracts[res["func"]]
+        ct = w.contracts.get(res["func"])
         ident = (d["name"], res["scenario"])
         if ident in seen:
             continue
@@ -316,7 +338,7 @@ def check_property(prop, tier, seed):
                   "solver": {"backend": d["backend"], "status": "sat (counter-model)", "model": d.get("model")},
                   "args": d.get("args"), "native": None, "confirmed": False}
         confirmed = False
-        if d.get("args") is not None and ct.native and ct.native.get("call"):
+        if ct is not None and d.get("args") is not None and ct.native and ct.native.get("call"):
             job = build_job(ct, d["args"])
             nat = native_run(job)
             replay["native_job"] = job
